@@ -97,7 +97,7 @@ class Ctx:
         return self._int
 
 
-def closure_def(body_json, operand):
+def closure_def(body_json, operand, _hops=0):
     """(def path, capture operands) when `operand` is a local holding a closure built by exactly one aggregate assignment."""
     pl = operand.get("move") or operand.get("copy")
     if pl is None or pl["p"]:
@@ -114,6 +114,9 @@ def closure_def(body_json, operand):
             found.append(None)
     if len(found) == 1 and found[0] is not None and found[0].get("agg") == "closure" and found[0].get("def"):
         return found[0]["def"], found[0].get("ops", [])
+    if len(found) == 1 and found[0] is not None and "use" in found[0] and _hops < 3:
+        # `let f = |x| ..; it.try_for_each(f)`: the closure value moved out of its variable
+        return closure_def(body_json, found[0]["use"], _hops + 1)
     return None
 
 
